@@ -109,6 +109,8 @@ inductive FullErr where
   | shape (what : String)           -- an `assert …shape == …` of `_load_data` fails (AssertionError)
   | scalarAttr (file : String)      -- `arr.shape[0]` on a 0-d `spike_*.npy`: IndexError, NOT caught by
                                     -- the `except (IOError, AssertionError)` of model.py:534
+  | curatedWithoutTemplates         -- no template file and clusters ≠ templates: `self.sparse_templates.cols`
+                                    -- on `None` (model.py:418-419): AttributeError
 deriving Repr, DecidableEq
 
 /-- `_load_spike_attributes` (model.py:520-538): every `spike_*.npy` except the reserved names, read
@@ -222,6 +224,8 @@ def loadFull {β : Type} (inv : Arr → Arr) (rate : Rat) (tden ncd : Nat) (one 
   match (shapeChecks v cols ns nc nt ncd).find? (fun c => !c.2) with
   | some c => throw (.shape c.1)
   | none => pure ()
+  -- model.py:418-419: `if not np.all(spike_clusters == spike_templates) and self.sparse_templates.cols is None`
+  if v.templates.isNone && v.spikeClusters.data != v.spikeTemplates.data then throw .curatedWithoutTemplates
   let positions :=                                       -- model.py:390-393
     if positionsDistinct v.channelPositions then Positions.file v.channelPositions else .linear nc
   let attrs ← loadSpikeAttributes ns d'                  -- model.py:474
